@@ -36,6 +36,19 @@ def InjOn (φ : Addr → Addr) (dom : Addr → Prop) : Prop :=
 def Separated (base : Addr) (h' : Heap) : Prop :=
   ∀ b n, (b, n) ∈ h' → base ≤ b ∧ ∀ c ∈ n.refs, base ≤ c
 
+/-! ### the hypotheses of the theorems, as executable checks (run by the driver on every dump) -/
+
+/-- the dumped heap lies below `base`, is closed under references, and so are its roots -/
+def checkSource (h : Heap) (base : Addr) (roots : Roots) : Bool :=
+  h.all (fun kv => decide (kv.1 < base) && kv.2.refs.all (fun c => decide (c < base))) &&
+  (roots.globalObject :: (roots.globals ++ [roots.eval, roots.globalStash])).all (fun a => decide (a < base))
+
+/-- the global object's prototype is `rt.global.ObjectPrototype` -/
+def checkGlobalProto (h : Heap) (roots : Roots) : Bool :=
+  match look roots.globalObject h, roots.globals[objectPrototypeIx]? with
+  | some (.obj go), some p => go.proto == some p
+  | _, _ => false
+
 /-! ### canonical observation -/
 
 def hexDigit (n : Nat) : Char :=
